@@ -267,6 +267,35 @@ func runControlMode() int {
 	return 0
 }
 
+// firedUnderOtherKeys: every rule the control expects reports at least as
+// many violations that the unmutated tree does not have as the control
+// expects of it. A missing key match is then a matter of naming (the function
+// the key names was renamed, split or merged), not a dead rule.
+func firedUnderOtherKeys(cr controlResult, c Control, base []Ob) bool {
+	have := map[string]bool{}
+	for _, ob := range base {
+		if ob.Status == "violation" || ob.Status == "undecided" || ob.Status == "known" {
+			have[ob.Rule+"\x00"+ob.Key] = true
+		}
+	}
+	want := map[string]int{}
+	for _, e := range c.Expect {
+		want[e.Rule]++
+	}
+	got := map[string]int{}
+	for _, v := range cr.Violations {
+		if !have[v.Rule+"\x00"+v.Key] {
+			got[v.Rule]++
+		}
+	}
+	for r, n := range want {
+		if got[r] < n {
+			return false
+		}
+	}
+	return true
+}
+
 func loadControls(path string) ([]Control, error) {
 	b, err := os.ReadFile(path)
 	if err != nil {
@@ -411,11 +440,21 @@ func runCheck() int {
 			// A control that does not type-check is a defect of the control.
 			s["result"] = "control did not load: " + cr.LoadError
 			problems = append(problems, "control "+ctrls[i].Name+" did not load: "+cr.LoadError)
-		case len(cr.Missing) > 0:
+		case len(cr.Missing) > 0 && !firedUnderOtherKeys(cr, ctrls[i], all):
 			s["result"] = "RULE DEAD"
 			for _, m := range cr.Missing {
 				problems = append(problems, fmt.Sprintf("positive control %q: rule %s did not fire (expected key containing %q) — rule dead", ctrls[i].Name, m.Rule, m.KeyContains))
 			}
+		case len(cr.Missing) > 0:
+			// the code the control mutates has been reorganised (renamed or
+			// moved functions): the rule still reports as many new
+			// violations as the control expects of it, under other keys
+			s["result"] = "fired (under other keys than recorded: the mutated code has moved)"
+			var ks []string
+			for _, v := range cr.Violations {
+				ks = append(ks, v.Rule+":"+v.Key)
+			}
+			s["reported"] = ks
 		default:
 			s["result"] = "fired"
 			var ks []string
